@@ -10,12 +10,14 @@ package main
 // with the exact rational values of the float64 parameters.
 
 import (
+	"encoding/json"
 	"fmt"
 	"math"
 	"math/big"
 	"math/rand"
 	"os"
 	"path/filepath"
+	"reflect"
 	"regexp"
 	"sort"
 	"strconv"
@@ -24,6 +26,7 @@ import (
 	"sync"
 	"sync/atomic"
 	"time"
+	"unsafe"
 
 	"verifharness/drv"
 
@@ -335,7 +338,7 @@ func c01Dims(r *rand.Rand, s string) string {
 		s += " dsp=" + []string{"str", "sec", "ms", "us", "min", "str", "sec"}[r.Intn(7)]
 	}
 	if r.Intn(20) < 9 {
-		s += " enc=" + []string{"int", "yaml", "list", "yamllist", "yaml"}[r.Intn(5)]
+		s += " enc=" + []string{"int", "yaml", "list", "yamllist", "json"}[r.Intn(5)]
 	}
 	switch x := r.Intn(100); {
 	case x < 2:
@@ -402,6 +405,43 @@ func c01Lazy(r *rand.Rand, n int) []string {
 	return out
 }
 
+// c01Thin: step profiles of MANY levels (4..10) with FEW operations each (0..12; levels without any operation
+// included), drained by 3..8 consumers — started, or never started — natively (many trials) or with scheduling
+// perturbation inside the schedule's methods. A change of level is the composite's only non-trivial moment (one consumer
+// starts the next level under the write lock while others wait for that lock or still see the old level); with levels
+// this thin a waiting consumer can find the level it waited for already drained by the others, several levels can go by
+// while it waits, and every profile has 3..9 such moments instead of 2.
+func c01Thin(r *rand.Rand, n int) []string {
+	var out []string
+	for i := 0; i < n; i++ {
+		d := []int64{250e6, 500e6, 1e9, 1e9, 40e6}[r.Intn(5)]
+		from := float64(r.Intn(5)) / 2 // 0, 0.5, … 2 operations per second
+		st := int64(1 + r.Intn(2))
+		if d == 40e6 {
+			from, st = float64(r.Intn(3))*12.5, 25 // 0, 0/1, 1, 1/2, 2 … operations per 40 ms level
+		}
+		levels := 4 + r.Intn(7)
+		to := from + float64(st)*float64(levels-1)
+		if r.Intn(3) == 0 {
+			to += 0.5 // `to` is no level itself
+		}
+		c := stepIn(from, to, st, d)
+		conc := 3 + r.Intn(6)
+		switch i % 4 {
+		case 0:
+			c += fmt.Sprintf(" conc=%d trials=%d inst=1", conc, 6+r.Intn(6))
+		case 1:
+			c += fmt.Sprintf(" conc=%d trials=%d", conc, 30+r.Intn(30))
+		case 2:
+			c += fmt.Sprintf(" start=implicit conc=%d trials=%d inst=1", conc, 6+r.Intn(6))
+		default:
+			c += fmt.Sprintf(" conc=%d trials=%d inst=1 enc=%s", conc, 4+r.Intn(4), []string{"list", "json", "yaml"}[r.Intn(3)])
+		}
+		out = append(out, c)
+	}
+	return out
+}
+
 // c01Huge: profiles of more than 2^31 (up to 10^13) operations — valid configurations (a rate of 10^7/s over an hour) that
 // cannot be drained here; drain=0 looks at Left() before the start (the count) and at the first operations only.
 func c01Huge(r *rand.Rand, n int) []string {
@@ -410,6 +450,7 @@ func c01Huge(r *rand.Rand, n int) []string {
 		constIn(3e9, 1e9) + " drain=0", constIn(2147483648.5, 1e9) + " drain=0", constIn(1e7, 3600e9) + " drain=0 dsp=str",
 		lineIn(0, 1e10, 1e9) + " drain=0", lineIn(6e9, 1, 1500e6) + " drain=0",
 		stepIn(1e9, 3e9, 1e9, 1e9) + " drain=0", stepIn(25e8, 3e9, 250000000, 2e9) + " drain=0 enc=list",
+		"kind=once times=3000000000 drain=0 enc=json", constIn(1e7, 3600e9) + " drain=0 enc=json", stepIn(0, 9e9, 3000000000, 5e9) + " drain=0 enc=jsonlist",
 	}
 	for i := 0; i < n; i++ {
 		d := c01Duration(r)
@@ -433,7 +474,7 @@ func c01Huge(r *rand.Rand, n int) []string {
 		}
 		c += " drain=0"
 		if r.Intn(3) == 0 {
-			c += " enc=" + []string{"int", "yaml", "list"}[r.Intn(3)]
+			c += " enc=" + []string{"int", "yaml", "list", "json", "json", "jsonlist"}[r.Intn(6)]
 		}
 		if r.Intn(8) == 0 {
 			c += " fac=2"
@@ -528,6 +569,11 @@ func c01Gen(r *rand.Rand, tier string) []string {
 		nLazy = 900
 	}
 	out = append(out, c01Lazy(r, nLazy)...)
+	nThin := 48
+	if tier == "thorough" {
+		nThin = 480
+	}
+	out = append(out, c01Thin(r, nThin)...)
 	// ill-conditioned lines
 	for i := 0; i < nIll; i++ {
 		d := c01Duration(r)
@@ -683,6 +729,9 @@ func c01SameNum(v interface{}, want float64) bool {
 //	enc=yaml           YAML text (numbers and durations as written by hand) parsed into the settings map, keys folded like viper does
 //	enc=list           `rps: [section]`: the usual list notation, through the slice -> composite hook and NewComposite
 //	enc=yamllist       both
+//	enc=json           JSON text read back with encoding/json: every number (rates, times, step, a duration given as a bare
+//	                   number of ns when no dsp= is set) is a float64
+//	enc=jsonlist       the same inside `rps: [section]`
 func c01Decode(m map[string]string) (s core.Schedule, ok bool) {
 	s, _, ok = c01DecodeAs(m, false)
 	return
@@ -846,10 +895,31 @@ func c01DecodeAs(m map[string]string, asFactory bool) (s core.Schedule, f func()
 		if dur != "" {
 			sec["duration"] = dur
 		}
-		if enc == "list" || enc == "yamllist" {
+		if (enc == "json" || enc == "jsonlist") && dur != "" && m["dsp"] == "" && atoi("dur") < 1<<53 {
+			sec["duration"] = atoi("dur") // a bare JSON number is a number of nanoseconds
+		}
+		if enc == "list" || enc == "yamllist" || enc == "jsonlist" {
 			root = map[string]interface{}{"rps": []interface{}{sec}}
 		} else {
 			root = map[string]interface{}{"rps": sec}
+		}
+		if enc == "json" || enc == "jsonlist" {
+			// enc=json: the section as JSON text read back with encoding/json — EVERY number, also an integer option
+			// (times, step, a duration written as a number of ns), arrives as a float64. Kept only if every integer
+			// survives the text form (below 2^53) and the text is writable (no infinite rate).
+			exact := true
+			for _, f := range fields {
+				if !f.isRate && (f.i >= 1<<53 || f.i <= -(1<<53)) {
+					exact = false
+				}
+			}
+			if text, err := json.Marshal(root); err == nil && exact {
+				var back map[string]interface{}
+				if err := json.Unmarshal(text, &back); err != nil {
+					panic("json text of the harness is not readable: " + err.Error())
+				}
+				root = back
+			}
 		}
 	}
 	return c01DecodeRoot(root, asFactory)
@@ -1055,6 +1125,27 @@ func c01DrainOnce(s core.Schedule, capN int, t0 time.Time, implicit bool, conc i
 	return d
 }
 
+// c01FastForward sets the operation counter of a LEAF schedule — the field `i` of core/schedule's doAtSchedule, an
+// atomic 64-bit integer (regenerated as `DoAtSt.i`) — to k, so that the next Next() hands out operation k. The schedule
+// itself was built by the real decoder and constructors; only its progress is moved. false: not such a schedule (a
+// composite, or the field has another representation): nothing is fast-forwarded.
+func c01FastForward(s core.Schedule, k int64) bool {
+	v := reflect.ValueOf(s)
+	if v.Kind() != reflect.Ptr || v.IsNil() || v.Elem().Kind() != reflect.Struct {
+		return false
+	}
+	f := v.Elem().FieldByName("i")
+	if !f.IsValid() || !f.CanAddr() || f.Type().Size() != 8 {
+		return false
+	}
+	// go.uber.org/atomic.Int64 is struct{ _ nocmp (zero size); v int64 }
+	if !(f.Kind() == reflect.Int64 || (f.Kind() == reflect.Struct && f.Type().Name() == "Int64")) {
+		return false
+	}
+	atomic.StoreInt64((*int64)(unsafe.Pointer(f.UnsafeAddr())), k)
+	return true
+}
+
 // c01PanicSite: the innermost frames of github.com/yandex/pandora on the panicking goroutine's stack (function names only)
 func c01PanicSite() string {
 	pcs := make([]uintptr, 32)
@@ -1174,7 +1265,35 @@ func c01Run(input string) string {
 			}
 			fmt.Fprintf(&sb, "%d:%d", i, int64(tx.Sub(t0)))
 		}
-		return fmt.Sprintf("LEFTONLY left0=%d left1=%d toks=%s", left0, s.Left(), sb.String())
+		obs := fmt.Sprintf("LEFTONLY left0=%d left1=%d toks=%s", left0, s.Left(), sb.String())
+		// … and, for a leaf schedule, at operations far inside and at the very end of the profile: the operation counter
+		// is fast-forwarded (c01FastForward) to the middle, to 7/8 and to the last two operations; after the last one the
+		// schedule must report the end at start + duration and Left() = 0. (Operation indices beyond 2^31, 2^32, up to
+		// 10^13: where a narrower integer or an integer product inside the instant's formula wraps.)
+		if l := int64(left0); l > 16 && c01FastForward(s, 8) {
+			var fb strings.Builder
+			over := 0
+			for j, k := range []int64{l / 2, l/8*7 + 1, l - 2} {
+				c01FastForward(s, k)
+				for q := int64(0); q < 2; q++ {
+					tx, ok := s.Next()
+					if !ok {
+						over = -1 // the end reported before operation left0-1
+						break
+					}
+					if j > 0 || q > 0 {
+						fb.WriteByte(';')
+					}
+					fmt.Fprintf(&fb, "%d:%d", k+q, int64(tx.Sub(t0)))
+				}
+			}
+			tx, ok := s.Next()
+			if ok && over == 0 {
+				over = 1 // an operation beyond Left() before the start
+			}
+			obs += fmt.Sprintf(" fftoks=%s ffover=%d fffin=%d ffleft=%d", fb.String(), over, int64(tx.Sub(t0)), s.Left())
+		}
+		return obs
 	}
 	var d, ref c01Drain
 	for k := 0; k < trials; k++ {
@@ -1372,6 +1491,8 @@ func c01Class(in, obs string) string {
 		c += "+concurrent"
 	case m["enc"] == "yaml" || m["enc"] == "yamllist":
 		c += "+yaml"
+	case m["enc"] == "json" || m["enc"] == "jsonlist":
+		c += "+json"
 	}
 	return c
 }
